@@ -40,15 +40,28 @@ CHECKS = {
             {"pkg": "lib", "entries": ["VerifC17Docs"], "params": {"KN": 1}},
             {"pkg": "lib", "entries": ["VerifC17Deep"], "params": {"DEPTH": 7, "N": 3}},
             {"pkg": "lib", "entries": ["VerifC17Deep"], "params": {"DEPTH": 3, "N": 3, "CHAINKINDS": 2}},
+            {"pkg": "lib", "entries": ["VerifC17KeyedSet"], "params": {"KN": 1, "KM": 1}},
+            {"pkg": "lib", "entries": ["VerifC17KeyedSet"], "params": {"KN": 2, "KM": 1, "VK": 2}},
+            {"pkg": "lib", "entries": ["VerifC17KeyedSet"], "params": {"KN": 1, "KM": 1, "MIXED": 1, "WRAPS": 1}},
+            {"pkg": "lib", "entries": ["VerifC17Nest"], "params": {"N": 1, "INNER": 2, "EMPTYOBJ": 1, "WRAPS": 3}},
+            {"pkg": "lib", "entries": ["VerifC17Kinds"], "params": {"N": 2}},
         ],
         "thorough": [
             {"pkg": "lib", "entries": ["VerifC17Flat"], "params": {"N": 3, "M": 3}},
             {"pkg": "lib", "entries": ["VerifC17Docs"], "params": {"KN": 2, "INNER": 2}},
             {"pkg": "lib", "entries": ["VerifC17Deep"], "params": {"DEPTH": 9, "N": 3, "CHAINKINDS": 1}},
             {"pkg": "lib", "entries": ["VerifC17Deep"], "params": {"DEPTH": 5, "N": 2, "CHAINKINDS": 2}},
+            {"pkg": "lib", "entries": ["VerifC17KeyedSet"], "params": {"KN": 2, "KM": 1}},
+            {"pkg": "lib", "entries": ["VerifC17KeyedSet"], "params": {"KN": 1, "KM": 2, "VK": 2}},
+            {"pkg": "lib", "entries": ["VerifC17KeyedSet"], "params": {"KN": 2, "KM": 1, "MIXED": 1, "VK": 2, "WRAPS": 1}},
+            {"pkg": "lib", "entries": ["VerifC17Nest"], "params": {"N": 2}},
+            {"pkg": "lib", "entries": ["VerifC17Nest"], "params": {"N": 1, "INNER": 2, "EMPTYOBJ": 1, "WRAPS": 3}},
+            {"pkg": "lib", "entries": ["VerifC17Kinds"], "params": {"N": 2}},
         ],
-        "covers": ["c17.flat.none", "c17.flat.set", "c17.flat.multiset", "c17.flat.merge", "c17.flat.precision", "c17.obj.none", "c17.keyed.setkeys", "c17.void.none"],
-        "outside": "arrays longer than N; keys other than a,b,c,id,v; FNV collisions; the top-level binary with -v2=false (C14)",
+        "covers": ["c17.flat.none", "c17.flat.set", "c17.flat.multiset", "c17.flat.merge", "c17.flat.precision", "c17.obj.none", "c17.keyed.setkeys", "c17.void.none",
+                   "c17.keyedset.set+setkeys", "c17.nest.none", "c17.nest.set", "c17.nest.multiset", "c17.nest.merge", "c17.nest.set+merge", "c17.nest.multiset+merge",
+                   "c17.kinds.none", "c17.kinds.set", "c17.kinds.multiset"],
+        "outside": "arrays longer than N; keys other than a,b,c,id,k,p,v; FNV collisions; the top-level binary with -v2=false (C14); under SET + Setkeys, members lacking the key or sharing an identity within one array (outside the property: 'objects identified by keys')",
     },
     "C18": {
         "quick": [
@@ -56,6 +69,9 @@ CHECKS = {
             {"pkg": "lib", "entries": ["VerifC18Merge"], "params": {"D": 0, "EMPTYOBJ": 1}},
             {"pkg": "lib", "entries": ["VerifC18Patch"], "params": {"N": 2, "LONG": 1}},
             {"pkg": "lib", "entries": ["VerifC18Patch"], "params": {"N": 2, "KEYS": 3, "KEYSET": 1, "FAMS": 2}},
+            {"pkg": "lib", "entries": ["VerifC18Deep"], "params": {"DEPTH": 7, "SMALLKEYS": 3}},
+            {"pkg": "lib", "entries": ["VerifC18Deep"], "params": {"DEPTH": 3, "CHAINKINDS": 2, "ARRS": 1}},
+            {"pkg": "lib", "entries": ["VerifC18Kinds"], "params": {"N": 2}},
         ],
         "thorough": [
             {"pkg": "lib", "entries": ["VerifC18Patch"], "params": {"N": 3, "KEYS": 6}},
@@ -63,8 +79,11 @@ CHECKS = {
             {"pkg": "lib", "entries": ["VerifC18Merge"], "params": {"D": 0, "EMPTYOBJ": 1, "INNER": 2}},
             {"pkg": "lib", "entries": ["VerifC18Patch"], "params": {"N": 3, "LONG": 1}},
             {"pkg": "lib", "entries": ["VerifC18Patch"], "params": {"N": 2, "KEYS": 4, "KEYSET": 1, "FAMS": 2}},
+            {"pkg": "lib", "entries": ["VerifC18Deep"], "params": {"DEPTH": 9, "SMALLKEYS": 3, "ARRS": 1}},
+            {"pkg": "lib", "entries": ["VerifC18Deep"], "params": {"DEPTH": 5, "CHAINKINDS": 2, "ARRS": 1}},
+            {"pkg": "lib", "entries": ["VerifC18Kinds"], "params": {"N": 3}},
         ],
-        "covers": ["c18.patch", "c18.merge"],
+        "covers": ["c18.patch", "c18.merge", "c18.deep.patch", "c18.deep.merge", "c18.kinds"],
         "outside": "keys beyond {0, 10, a/b, m~n, k, a, b, c, 007, +1, -0, 00}; arrays longer than N symbolic elements (plus a fixed common prefix of 7..10 elements in the LONG family); text-level encoding (codec axioms)",
     },
     "C10": {
